@@ -1,5 +1,4 @@
-import BareProofs.C15Lemmas
-import BareModel.LibSpec
+import BareProofs.C15Spec
 
 /-!
 # C15 — array, object and string functions obey their sequence / map / string contracts
@@ -35,7 +34,7 @@ theorem eff_cases (f : String) (args : List Value) (h : Heap) :
       · rename_i hms hb hfv
         split
         · rename_i hva
-          exact Or.inr (Or.inl ⟨mn, ft, _, _, _, rfl, hms, lookup_mem hb, hfv, hva, rfl⟩)
+          exact Or.inr (Or.inl ⟨mn, ft, _, _, _, hl, hms, lookup_mem hb, hfv, hva, rfl⟩)
         · rename_i hva
           exact Or.inr (Or.inr (Or.inl ⟨_, _, _, lookup_mem hb, hva, rfl⟩))
       · exact Or.inl rfl
@@ -324,6 +323,116 @@ theorem lib_invalid_fails (f : String) (hf : f ∈ modelled) (args : List Value)
     unfold lib eff
     simp only [hl, hs, hb, failValue_docFailTxt, hbad, Eff.run]
     have : (mn == "") = false := by simpa using hr
-    simp [this, Eff.run]
+    simp [this]
+
+/-! ## the Python-shaped model computes the reference operations -/
+
+theorem lookup_none_of_not_mem {β} (l : List (String × β)) (f : String) (hf : f ∉ l.map (·.1)) : l.lookup f = none := by
+  induction l with
+  | nil => rfl
+  | cons p l ih =>
+    obtain ⟨k, b⟩ := p
+    simp only [List.map_cons, List.mem_cons, not_or] at hf
+    rw [List.lookup_cons]
+    have : (f == k) = false := by simpa using hf.1
+    simp only [this]
+    exact ih hf.2
+
+theorem modelled_not_raw : ∀ f ∈ modelled, Spec.rawFns.contains f = false := by decide
+
+/-- one function: if its body agrees with the reference body on validated arguments, the whole call agrees -/
+theorem eff_eq_of_body (f : String) (hf : f ∈ modelled) (ms : List Gen.ArgModel) (b sb : List VArg → Heap → Eff)
+    (hms : Spec.docSig.lookup f = some ms) (hb : bodies.lookup f = some b) (hsb : Spec.specBodies.lookup f = some sb)
+    (hbody : ∀ args h va, validate h ms args = some va → b va h = sb va h) (args : List Value) (h : Heap) :
+    eff f args h = Spec.specEff f args h := by
+  have hs := sig_table f hf
+  have ht := fail_table f hf
+  have hr := raw_table.2.1 f hf
+  cases hl : Gen.libFns.lookup f with
+  | none => rw [hl] at ht; simp at ht
+  | some p =>
+    obtain ⟨mn, ft⟩ := p
+    rw [hl] at hs ht hr
+    simp only [Option.map_some, Option.some.injEq] at ht
+    simp only [Option.bind_some, hms] at hs
+    simp only [Option.map_some, ne_eq, Option.some.injEq] at hr
+    subst ht
+    have hmn : (mn == "") = false := by simpa using hr
+    unfold eff Spec.specEff
+    simp only [hl, hs, hb, failValue_docFailTxt, hmn, modelled_not_raw f hf, hms, hsb, Bool.false_eq_true, if_false]
+    cases hv : validate h ms args with
+    | none => rfl
+    | some va => exact hbody args h va hv
+
+macro "same_body" : tactic => `(tactic| exact eff_eq_of_body _ (by decide) _ _ _ rfl rfl rfl (fun _ _ _ _ => rfl) _ _)
+
+/-- **Specification.** For every function name, every argument list and every heap the Python-shaped model of the call
+(argument models and failure values from the working tree, `int()` truncation, explicit range tests, Python item access with
+wrap-around, clamping slices, `range` loops, `str.find`/`rfind` with adjusted bounds) is the reference operation of the
+documented contract on natural-number indices: same result, same failure value, same new heap. -/
+theorem lib_spec (f : String) (args : List Value) (h : Heap) : eff f args h = Spec.specEff f args h := by
+  by_cases hm : f ∈ modelled
+  · simp only [modelled, bodies, List.map_cons, List.map_nil, List.mem_cons, List.not_mem_nil, or_false] at hm
+    rcases hm with rfl | rfl | rfl | rfl | rfl | rfl | rfl | rfl | rfl | rfl | rfl | rfl | rfl | rfl | rfl | rfl | rfl | rfl | rfl |
+      rfl | rfl | rfl | rfl | rfl | rfl | rfl | rfl | rfl | rfl | rfl | rfl | rfl | rfl | rfl | rfl | rfl | rfl
+    · same_body
+    · exact eff_eq_of_body _ (by decide) _ _ _ rfl rfl rfl (fun a h va hv => arrayDelete_body a h va hv) _ _
+    · same_body
+    · exact eff_eq_of_body _ (by decide) _ _ _ rfl rfl rfl (fun a h va hv => arrayGet_body a h va hv) _ _
+    · exact eff_eq_of_body _ (by decide) _ _ _ rfl rfl rfl (fun a h va hv => arrayIndexOf_body a h va hv) _ _
+    · same_body
+    · exact eff_eq_of_body _ (by decide) _ _ _ rfl rfl rfl (fun a h va hv => arrayLastIndexOf_body a h va hv) _ _
+    · same_body
+    · exact eff_eq_of_body _ (by decide) _ _ _ rfl rfl rfl (fun a h va hv => arrayNewSize_body a h va hv) _ _
+    · same_body
+    · same_body
+    · exact eff_eq_of_body _ (by decide) _ _ _ rfl rfl rfl (fun a h va hv => arraySet_body a h va hv) _ _
+    · same_body
+    · exact eff_eq_of_body _ (by decide) _ _ _ rfl rfl rfl (fun a h va hv => arraySlice_body a h va hv) _ _
+    · same_body
+    · same_body
+    · same_body
+    · same_body
+    · same_body
+    · same_body
+    · same_body
+    · exact eff_eq_of_body _ (by decide) _ _ _ rfl rfl rfl (fun a h va hv => stringCharCodeAt_body a h va hv) _ _
+    · same_body
+    · exact eff_eq_of_body _ (by decide) _ _ _ rfl rfl rfl (fun a h va hv => stringIndexOf_body a h va hv) _ _
+    · exact eff_eq_of_body _ (by decide) _ _ _ rfl rfl rfl (fun a h va hv => stringLastIndexOf_body a h va hv) _ _
+    · same_body
+    · same_body
+    · exact eff_eq_of_body _ (by decide) _ _ _ rfl rfl rfl (fun a h va hv => stringRepeat_body a h va hv) _ _
+    · same_body
+    · exact eff_eq_of_body _ (by decide) _ _ _ rfl rfl rfl (fun a h va hv => stringSlice_body a h va hv) _ _
+    · same_body
+    · same_body
+    · same_body
+    · same_body
+    · same_body
+    · same_body
+    · same_body
+  · by_cases hr : f ∈ Spec.rawFns
+    · simp only [Spec.rawFns, List.mem_cons, List.not_mem_nil, or_false] at hr
+      rcases hr with rfl | rfl | rfl <;> rfl
+    · have hb : bodies.lookup f = none := lookup_none_of_not_mem _ _ hm
+      have hrb : rawBodies.lookup f = none := lookup_none_of_not_mem _ _ hr
+      have hds : Spec.docSig.lookup f = none := lookup_none_of_not_mem _ _ hm
+      have hrc : Spec.rawFns.contains f = false := by simpa using hr
+      unfold eff Spec.specEff
+      simp only [hb, hrb, hds, hrc, Bool.false_eq_true, if_false]
+      cases Gen.libFns.lookup f with
+      | none => rfl
+      | some p =>
+        obtain ⟨mn, ft⟩ := p
+        simp only
+        split
+        · rfl
+        · cases Gen.argModels.lookup mn <;> rfl
+
+/-- the same for the call through the wrapper -/
+theorem lib_eq_specLib : lib = Spec.specLib := by
+  funext f args h
+  simp only [lib, Spec.specLib, lib_spec]
 
 end C15
